@@ -78,7 +78,7 @@ def _scan_file(path):
                     k, v = am.group(1), (am.group(2) or "").strip()
                     if k in ("bound", "assume"):
                         ann[k].insert(0, v)
-                    elif k in ("tier", "timeout", "c20", "c01", "c02", "mem", "expect", "vacuity-ok", "cbmc"):
+                    elif k in ("tier", "timeout", "c20", "c01", "c02", "mem", "expect", "vacuity-ok", "cbmc", "playback-first"):
                         ann[k] = v or True
             j -= 1
         ann["submod"] = sub
